@@ -9,7 +9,7 @@ trap 'git -C /repo worktree remove --force $W 2>/dev/null' EXIT
 git -C $W apply "$PATCH" || { echo "sensw: patch does not apply" >&2; exit 3; }
 VERIF_REPO=$W VERIF_SHRINK_SECONDS=${VERIF_SHRINK_SECONDS:-8} /verif/bin/check run "$PROP" --tier quick "$@" > /tmp/sensw.$$.out 2>&1
 rc=$?
-grep -E "^violation class|^further violation|^check .* tier|HARNESS|KNOWN" /tmp/sensw.$$.out | cut -c1-240
+grep -a -E "^violation class|^further violation|^check .* tier|HARNESS|KNOWN" /tmp/sensw.$$.out | cut -c1-240
 echo "sensw: $PROP $(basename $PATCH) -> exit $rc"
 rm -f /tmp/sensw.$$.out
 exit $rc
